@@ -5,7 +5,7 @@ normal / large file) so that they run in parallel.  Together the variants cover 
 """
 from pyvc_spec import *
 from spec_cfdp import fss_len
-from spec_cfdp_fd import file_data_octets, file_data_field_len, seg_metadata_len, max_file_seg_len
+from spec_cfdp_fd import file_data_octets, file_data_body, file_data_field_len, seg_metadata_len, max_file_seg_len
 from cfdp_common import mk_conf, ids_in_range, W
 from spacepackets.exceptions import BytesTooShortError
 from spacepackets.cfdp.defs import (PduType, Direction, TransmissionMode, CrcFlag, LargeFileFlag, SegmentationControl,
@@ -50,6 +50,8 @@ def pack_case(direction, mode, crc, large, segctrl, we, ws, src, seq, dst, has_m
     params_snap = snapshot(params)
     pdu = FileDataPdu(conf, params)
     r = pdu.pack()
+    if crc == CrcFlag.WITH_CRC:     # lemma for the solver: the octets in front of the trailer first, then the whole PDU
+        ensures("layout-body", r[0:len(r) - 2] == file_data_body(mode, crc, large, segctrl, we, ws, src, seq, dst, has_meta, state, meta, offset, data))
     ensures("layout", r == file_data_octets(mode, crc, large, segctrl, we, ws, src, seq, dst, has_meta, state, meta, offset, data))
     ensures("packet_len", both(pdu.packet_len == len(r), pdu.header_len == 4 + 2 * we + ws))
     ensures("data-field-len", both(pdu.pdu_data_field_len == len(r) - pdu.header_len,
